@@ -38,12 +38,12 @@ type StructRefV struct{ Ref Term }
 type LocKind int
 
 const (
-	LCell   LocKind = iota // local variable cell (frame, alloc)
-	LGlobal                // package-level variable
-	LHeap1                 // heap[ref]            (struct field, box, ghost)
-	LHeap2                 // heap[arr][idx]       (slice / array element)
-	LStruct                // a struct living at Ref (fields are LHeap1 locations keyed by Ref)
-	LCellPath              // a field (path) inside a non-escaping struct local kept as a value cell
+	LCell     LocKind = iota // local variable cell (frame, alloc)
+	LGlobal                  // package-level variable
+	LHeap1                   // heap[ref]            (struct field, box, ghost)
+	LHeap2                   // heap[arr][idx]       (slice / array element)
+	LStruct                  // a struct living at Ref (fields are LHeap1 locations keyed by Ref)
+	LCellPath                // a field (path) inside a non-escaping struct local kept as a value cell
 )
 
 type Loc struct {
